@@ -67,6 +67,15 @@ def scan_of(prog, body, param=1):
                 clos = closure_of_local(prog, body, l)
         if clos is not None:
             scans.append((bb, t, clos, kind))
+    if len(scans) > 1:
+        # scans over something else than characters (a lookup in a table of names) are not the validation
+        def over_chars(t):
+            l = op_local(t["args"][0])
+            ty = body.local_ty(l) if l is not None else ""
+            return any(w in ty for w in ("Chars", "CharIndices", "Bytes", "u8", "char"))
+        chars_only = [x for x in scans if over_chars(x[1])]
+        if len(chars_only) == 1:
+            scans = chars_only
     if not scans:
         loop = _loop_scan(prog, body, param)
         if loop is not None:
